@@ -93,6 +93,6 @@ pub fn def() -> PropertyDef {
             "the harness's ISO-BMFF reader (src/reader.rs) implements stsc/stco/co64/stsz/stz2/stss resolution correctly",
             "expected MP4 framing is built from the generator's NAL/OBU lists, never by re-parsing",
         ],
-        subs: vec![Box::new(PSub { name: "resolve", quick: 3000, thorough: 150_000, strat, eval })],
+        subs: vec![Box::new(PSub { name: "resolve", quick: 30000, thorough: 1000000, strat, eval })],
     }
 }
